@@ -12,7 +12,6 @@ use winter_math::{
     fields::{f128, f62, f64},
     StarkField, ToElements,
 };
-use winter_utils::Serializable;
 
 use wfcommon::util::{bytes_of, catch, read_ndjson, Out};
 
@@ -77,7 +76,7 @@ fn run_field<E: StarkField>(name: &str, i: usize, ln: &Value, out: &mut Out, sta
             Ok(v) => {
                 if v == real {
                     stats[1] += 1;
-                    out.emit(&json!({"i": i, "kind": "collision", "field": name, "param": p, "a": c, "b": d, "vector": real}));
+                    out.emit(&json!({"i": i, "kind": "collision", "field": name, "param": p, "a": c, "b": d}));
                 }
             },
             Err(pm) => {
